@@ -214,14 +214,15 @@ AfterStateReq ==
     [p \in PeerNames |-> IF NeedsNewState(peer[p]) THEN RequestLastState(peer[p], now).s ELSE peer[p]]
 
 RECURSIVE ProofLoop(_, _, _, _)
-\* get_last_state_proof for every peer that requires a proof, in any order (order cannot matter:
-\* a peer only reads the *proved* part of others, which the loop can only copy, never create)
+\* get_last_state_proof for every peer that requires a proof, in ANY order: the set of possible results.
+\* (The order matters: a peer copies the prove state of another peer that has proved its last header, and the
+\* loop itself may have replaced that prove state a moment earlier; the client iterates a hash map.)
 ProofLoop(pm, todo, o, acc) ==
-    IF todo = {} THEN [pm |-> pm, sent |-> acc.sent, legal |-> acc.legal]
-    ELSE LET p == CHOOSE x \in todo : TRUE
-             r == GetLastStateProof(pm, p, o)
-         IN ProofLoop(r.pm, todo \ {p}, o,
-                      [sent |-> acc.sent \cup r.sent, legal |-> acc.legal /\ r.legal])
+    IF todo = {} THEN {[pm |-> pm, sent |-> acc.sent, legal |-> acc.legal]}
+    ELSE UNION {LET r == GetLastStateProof(pm, p, o)
+                IN ProofLoop(r.pm, todo \ {p}, o,
+                             [sent |-> acc.sent \cup r.sent, legal |-> acc.legal /\ r.legal])
+                : p \in todo}
 
 \* extra (non PeerState) timeouts are supplied by the fetch tables and extra bans by the check point
 \* finalization that ends the refresh (module FilterSync); PeerSync alone has none
@@ -230,11 +231,11 @@ RefreshTick(o, extraTimeouts, extraBan) ==
         pm1 == AfterStateReq
         ask == {p \in PeerNames : NeedsNewState(peer[p])}
         need == {p \in PeerNames : NeedsNewProof(pm1[p])}
-        r == ProofLoop(pm1, need, o, [sent |-> {}, legal |-> TRUE])
-    IN /\ r.legal
-       /\ peer' = r.pm
-       /\ out' = [ban |-> extraBan, drop |-> to,
-                  sent |-> {GetLastStateMsg(p) : p \in ask} \cup r.sent]
+    IN /\ \E r \in ProofLoop(pm1, need, o, [sent |-> {}, legal |-> TRUE]) :
+            /\ r.legal
+            /\ peer' = r.pm
+            /\ out' = [ban |-> extraBan, drop |-> to,
+                       sent |-> {GetLastStateMsg(p) : p \in ask} \cup r.sent]
        /\ UNCHANGED <<world, cfg, now, tip, tipTD, lastN>>
 
 (***************************************************************************)
